@@ -64,6 +64,32 @@ def query(shape, fns, grouped, n, pcts):
     return sql, meta
 
 
+def mixed_query(rng, n):
+    """one query whose aggregates take DIFFERENT expressions over the same column / nested path (each evaluated per row on its own)"""
+    path = rng.random() < 0.6
+    base = "o.v" if path else "v"
+    pool = [("%s" % base, 1, 1, 0), ("%s*2" % base, 2, 1, 0), ("%s+100" % base, 1, 1, 100), ("%s*2+1" % base, 2, 1, 1), ("%s*1.5" % base, 3, 2, 0), ("%s*3" % base, 3, 1, 0), ("%s-0.5" % base, 1, 1, None)]
+    pool = [x for x in pool if x[3] is not None]
+    picks = rng.sample(pool, rng.choice([2, 3, 4]))
+    items, aggs = [], []
+    for k, (txt, an, ad, b) in enumerate(picks):
+        fn = rng.choice(["sum", "max", "min", "avg", "sum", "last_value", "first_value"])
+        arg = {"k": "aff", "an": an, "ad": ad, "b": b}
+        if path: arg["p"] = ["o", "v"]
+        else: arg["c"] = "v"
+        if txt == base:
+            arg = {"k": "path", "p": ["o", "v"]} if path else {"k": "col", "c": "v"}
+        items.append("%s(%s) AS a%d" % (fn, txt, k))
+        aggs.append({"al": "a%d" % k, "fn": fn, "arg": arg, "p": 0})
+    sql = "SELECT %s FROM stream GROUP BY CountingWindow(%d)" % (", ".join(items), n)
+    meta = {"fam": "batch", "carrier": "counting", "n": n, "gcols": [], "gout": [], "aggs": aggs}
+    rows = []
+    for i in range(n * 2):
+        x = rng.choice([-3, 0, 2, 4, 7, 10])          # even or small values: *1.5 stays a multiple of 1/2
+        rows.append({"id": i + 1, "o": {"v": x}} if path else {"id": i + 1, "v": x})
+    return {"meta": meta, "sql": sql, "rows": rows}
+
+
 def run(tier):
     res = vlib.Result("C03", tier)
     rng = random.Random(vlib.seed())
@@ -116,6 +142,8 @@ def run(tier):
                 r["v"] = {"$f": v + 0.5}
             rows.append(r)
         scen.append({"meta": meta, "sql": sql, "rows": rows})
+    for _ in range(60 if quick else 600):
+        scen.append(mixed_query(rng, rng.choice([2, 3, 4])))
     seqfam.run_scenarios(res, scen, "TraceBatch", tag="agg")
     res.cov["exhaustive"] = not quick
     res.cov["distinct_nontrivial"] = len({json.dumps(s["rows"], sort_keys=True) + s["sql"] for s in scen})
